@@ -14,7 +14,7 @@ CAT = W.CATALOGUE
 
 # ----------------------------------------------------------------- world build
 def gen_world_desc(rng, nlooms=(1, 2), ncpus=(1, 4), nprocs=(1, 2), nthreads=(1, 3), models=(), ranks=None,
-                   marks=None):
+                   marks=None, skews=False):
     looms = []
     nl = rng.randint(*nlooms)
     use_rank = rng.chance(30) if ranks is None else ranks
@@ -45,6 +45,12 @@ def gen_world_desc(rng, nlooms=(1, 2), ncpus=(1, 4), nprocs=(1, 2), nthreads=(1,
         for r, i in enumerate(order):
             allprocs[i]["rank"] = r
             allprocs[i]["nranks"] = len(allprocs)
+    if skews and nl > 1:
+        # one clock per host (looms whose names share the part before the first dot share the host)
+        hosts = sorted({n.split(".")[0] for n in names})
+        hs = {h: rng.choice([0, rng.randint(-3 * 10 ** 12, 3 * 10 ** 12), rng.randint(-500, 500)]) for h in hosts}
+        for l in looms:
+            l["skew"] = hs[l["name"].split(".")[0]]
     d = {"looms": looms, "models": list(models), "marks": marks or {}}
     return d
 
@@ -798,14 +804,22 @@ def run_machine_case(case, ctx, keys_filter=None, post=None, extra_flags=()):
     try:
         tdir = os.path.join(d, "ovni")
         streams = [t.stream for t in w.threads]
-        tf.write_trace(tdir, streams, order=case.get("order"))
+        extra = {}
+        if any(l.skew for l in w.looms):
+            # the offset table ovnisync would produce: minus the skew of each host
+            lines = ["rank       hostname             offset_median        offset_mean         offset_std\n"]
+            for n, (h, sk) in enumerate(sorted({(l.hostname, l.skew) for l in w.looms})):
+                lines.append("%-10d %-20s %-20d %-19.3f %.3f\n" % (n, h, -sk, float(-sk), 2.0))
+            extra["clock-offsets.txt"] = "".join(lines).encode()
+            info_skew = True
+        tf.write_trace(tdir, streams, order=case.get("order"), extra_files=extra)
         flags = (["-l"] if case.get("lint") else []) + list(case.get("emuflags", [])) + list(extra_flags)
         status, out, err = ctx.run_tool("ovniemu", flags + [tdir])
         verdict = emu_verdict(status, err)
         exp, why = m.end_verdict()
         info = {"sim_ns": m.now, "size": len(case["actions"]), "ihash": ihash(case["actions"]), "verdict": "%s/%s" % (exp, verdict),
                 "states": sorted(map(str, m.states_seen)), "faults": case.get("faults", {}),
-                "probes": case.get("probes", {})}
+                "probes": dict(case.get("probes", {}), **({"looms with skewed clocks + offset table": 1} if extra else {}))}
         sample = {"world": w.describe(), "n_actions": len(case["actions"]),
                   "first_actions": [[a[0], a[1], a[2]] for a in case["actions"][:12]],
                   "expected": exp, "reason": why, "emulator": verdict}
